@@ -66,6 +66,29 @@ def answer (w : List String) : String :=
   | some "multistage" =>
     showEvs (multistage_iterator fuel 0 0 (some (i 1)) (i 2) (i 3) (((w.getD 5 "").splitOn ",").filter (· ≠ "") |>.map stOf)
       (w.getD 4 "maximum") false)
+  | some "finalize" =>
+    let mx : Option Int := if w.getD 3 "-" = "-" then none else some (i 3)
+    match finalize (i 1) (i 2) mx with
+    | .ok (n, m) => s!"{n} {match m with | none => "-" | some v => toString v}"
+    | .error e => "raise:" ++ errStr e
+  | some "init" =>
+    let mx : Option Int := if w.getD 1 "-" = "-" then none else some (i 1)
+    match checkpointSchedule_init mx with
+    | .ok (n, r, m) => s!"{n} {r} {match m with | none => "-" | some v => toString v}"
+    | .error e => "raise:" ++ errStr e
+  | some "uses" =>
+    let st := stOf (w.getD 2 "NONE")
+    let ob (r : M Bool) : String := match r with | .ok b => b01 b | .error e => "raise:" ++ errStr e
+    match w.getD 1 "" with
+    | "singleMemory" => ob (singleMemory_uses st .work)
+    | "singleDisk" => ob (singleDisk_uses st .disk)
+    | "none" => ob (none_uses st)
+    | "multistage" => match multistage_uses st (i 3) (i 4) with
+        | .ok (some b) => b01 b | .ok none => "None" | .error e => "raise:" ++ errStr e
+    | "mixed" => ob (mixed_uses st (stOf (w.getD 3 "DISK")))
+    | "twoLevel" => ob (twoLevel_uses st (stOf (w.getD 3 "DISK")))
+    | "revolve" => ob (revolve_uses st (i 3) (if w.getD 4 "-" = "-" then none else some (i 4)))
+    | _ => "bad-request"
   | some "mixed" => showEvs (mixed_iterator fuel 0 0 (some (i 1)) (i 2) (stOf (w.getD 3 "DISK")) false)
   | some "twoLevel" =>
     showEvs (twoLevel_iterator fuel 0 0 none (i 1) (i 2) (stOf (w.getD 3 "DISK")) (w.getD 4 "maximum") (i 5) (i 6))
